@@ -10,6 +10,11 @@ Evidence and replay files of these runs go to a scratch directory, not to /verif
 import os, subprocess, sys, tempfile, shutil, json, time
 ROOT = os.path.dirname(os.path.dirname(os.path.abspath(__file__)))
 inplace = "--inplace" in sys.argv
+keep = None  # --keep-replay <dir>: copy the replay file of a CAUGHT verdict to <dir>/replay-<ID>.json
+if "--keep-replay" in sys.argv:
+    i = sys.argv.index("--keep-replay")
+    keep = os.path.abspath(sys.argv[i + 1])
+    del sys.argv[i:i + 2]
 args = [a for a in sys.argv[1:] if a != "--inplace"]
 patch, ids = os.path.abspath(args[0]), args[1].split(",")
 tier = args[2] if len(args) > 2 else "quick"
@@ -47,6 +52,13 @@ try:
                 break
         if p.returncode == 1 and "VIOLATION property=" not in out:
             verdict = "INCONCLUSIVE"
+        if verdict == "CAUGHT" and keep:
+            for line in out.splitlines():
+                if line.startswith("VIOLATION property=") and " replay=" in line:
+                    rp = line.split(" replay=", 1)[1].strip()
+                    if os.path.isfile(rp):
+                        shutil.copy(rp, os.path.join(keep, "replay-%s.json" % pid))
+                    break
         print("%s %s %s %.0fs %s" % (verdict, pid, tier, time.time() - t0, sig))
         if verdict == "INCONCLUSIVE":
             print(out[-1500:])
